@@ -1,6 +1,7 @@
 // Shared definitions of the RPC harness (C14): connection with loop-back reply reader, handler
 // log, type-erased method / interface tables filled in by the generated interface TUs.
 #pragma once
+#include <functional>
 #include <limits>
 #include "kit/gen.h"
 #include "kit/io.h"
@@ -43,11 +44,13 @@ struct RpcCall { int method; Value args; };
 struct RpcState {
   std::vector<RpcCall> log;
   std::map<int, Value> script;   // method index -> value the handler returns
+  std::function<void()> nested;  // one-shot: run by the next handler BEFORE it looks at its arguments (re-entrant dispatch)
 };
 inline RpcState& rpc_state() { static RpcState s; return s; }
 
 template <typename Ret, typename... Args>
 Ret rpc_handler(int method, const Args&... args) {
+  if (rpc_state().nested) { auto hook = std::move(rpc_state().nested); rpc_state().nested = nullptr; hook(); }
   RpcCall c; c.method = method;
   (c.args.kids.push_back(MetaOf<Args>::to_value(args)), ...);
   rpc_state().log.push_back(std::move(c));
